@@ -61,7 +61,8 @@ type PfcpServer struct {
 	log          *logrus.Entry
 	// done is closed when the main loop has ended. Producers select on it
 	// instead of the input channels being closed under them.
-	done chan struct{}
+	done    chan struct{}
+	started bool
 }
 
 func NewPfcpServer(cfg *factory.Config, driver forwarder.Driver) *PfcpServer {
@@ -236,6 +237,7 @@ func (s *PfcpServer) receiver(wg *sync.WaitGroup) {
 func (s *PfcpServer) Start(wg *sync.WaitGroup) {
 	s.log.Infoln("starting pfcp server")
 	wg.Add(1)
+	s.started = true
 	go s.main(wg)
 	s.log.Infoln("pfcp server started")
 }
@@ -247,6 +249,12 @@ func (s *PfcpServer) Stop() {
 		if err != nil {
 			s.log.Errorf("Stop pfcp server err: %+v", err)
 		}
+	}
+	// wait for the main loop to finish the requests it already holds: the
+	// caller releases the forwarder next, and the loop must not be inside (or
+	// enter) a forwarder call by then
+	if s.started && s.done != nil {
+		<-s.done
 	}
 }
 
